@@ -55,7 +55,10 @@ extern "C" void harness(void)
   bool tl[NST]; for (int s = 0; s < NST; ++s) tl[s] = vs_bit();
   bool tf[NST][NST]; for (int s = 0; s < NST; ++s) for (int t = 0; t < NST; ++t) tf[s][t] = (NSY > 1) ? vs_bit() : false;
   bool tg[NST]; for (int s = 0; s < NST; ++s) tg[s] = (NSY > 2) ? vs_bit() : false;      // g2(s, q) -> s
+  bool tb[NST]; for (int s = 0; s < NST; ++s) tb[s] = (LD_ENC == 1) ? vs_bit() : false;  // finite automata: a second start symbol  b -> s
   AutDescription d; d.name = "A";
+  if (LD_ENC == 1) d.symbols.insert(AutDescription::Symbol("b", 0));
+  for (int s = 0; s < NST; ++s) if (tb[s]) d.transitions.insert(AutDescription::Transition(AutDescription::StateTuple(), "b", STN[s]));
   for (int i = 0; i < NSY; ++i) if (symDecl[i]) d.symbols.insert(AutDescription::Symbol(SYN[i], SYR[i]));
   for (int i = 0; i < NST; ++i) if (stDecl[i]) d.states.insert(STN[i]);
   for (int i = 0; i < NST; ++i) if (fin[i]) d.finalStates.insert(STN[i]);
